@@ -72,10 +72,81 @@ CHECKS.update({
             "DESIGN.md 3/C17"),
 })
 
+CHECKS.update({
+    "C11": ("formatter", "exploration",
+            "runtime monitoring: idempotence / token and comment conservation oracle over formatter executions",
+            "The real formatter is run on every error-free .cairo file of the repository and on seeded layout mutants of them "
+            "(whitespace re-rolled, uniquely numbered comments injected, identifiers renamed to stress the line breaker, trailing "
+            "commas dropped) under the default configuration, a sorting/merging-off configuration and random points of the option "
+            "lattice; each output is re-parsed and re-formatted, and tokens, comments, mod declarations and expanded use paths are "
+            "compared. Held apart from the four recorded known findings (comments in the middle of constructs, blank line of a "
+            "moved use item, comment before the `;` of a macro rule).",
+            "Trusted: the repo's lexer for tokenisation on both sides; the deliberate canonicalisations of should_skip_terminal "
+            "(trailing commas, `;` after block statements, `::` before generic args in type paths) are treated as layout.",
+            "DESIGN.md 3/C11"),
+    "C12": ("dbscen", "exploration",
+            "runtime monitoring: byte-equality oracle over compilations under varied thread pools, injected delays and query orders",
+            "Whole projects are compiled repeatedly on fresh databases inside rayon pools of 1/2/4/16 threads with seeded delays at "
+            "the warm-up task boundaries (hook H4), seeded prefixes of unrelated queries and both query orders; diagnostics, Sierra "
+            "(debug-name and canonical), CASM and contract classes must equal the single-threaded reference byte for byte. The "
+            "number of distinct raw-intern-id fingerprints shows how many distinguishable interleavings were actually observed.",
+            "Trusted: schedule diversity is sampled, not enumerated; hook H4 only adds delays at task boundaries.",
+            "DESIGN.md 3/C12"),
+    "C13": ("dbscen", "exploration",
+            "runtime monitoring: incremental-vs-fresh equality oracle over recorded edit histories",
+            "Seeded histories of 14 (quick) or 30 (thorough) edits of 15 kinds are applied to one long-lived database with "
+            "different queries asked in between; at comparison points diagnostics (with locations) and Sierra are compared with a "
+            "fresh database holding the same contents. salsa's `executing query` events prove reuse: the incremental side executed "
+            "~0.5% of the fresh side's queries on the unchanged tree.",
+            "Trusted: override_file_content! as the edit mechanism on both sides.",
+            "DESIGN.md 3/C13"),
+    "C16": ("casm", "exploration",
+            "runtime monitoring: reference one-step semantics evaluated next to the real encoder + VM step",
+            "All 116 instruction shapes are instantiated with boundary offsets and immediates, assembled and encoded by the "
+            "toolchain, decoded and executed for one step by cairo-vm from seeded machine states; registers and all touched cells "
+            "are compared with a reference semantics written from the CASM instruction type; encoded length is compared with "
+            "op_size and with the VM decoder's size.",
+            "Trusted: cairo-vm's step as the executor; states where the VM must deduce a binop operand, and results outside the "
+            "address range, are not modelled (counted). Blake2s/QM31 are encode/decode only.",
+            "DESIGN.md 3/C16"),
+    "C18": ("serde", "exploration",
+            "runtime monitoring: round-trip equalities observed on real serializer/compiler executions",
+            "Every parseable Sierra program of the repository and the Sierra compiled from the e2e/examples snippets is pushed "
+            "through the text printer/parser, the felt252 serialization behind ContractClass, the versioned JSON, and compiled to "
+            "CASM in five id representations; texts, programs and CASM are compared.",
+            "Trusted: CanonicalReplacer as the canonical form the felt encoding is specified for.",
+            "DESIGN.md 3/C18"),
+    "C19": ("classes", "exploration",
+            "runtime monitoring: structural invariants on live class objects + execution of every entry point from the class bytecode",
+            "All contracts of the Starknet test crate, all stored contract classes and seeded generated contracts are compiled; "
+            "each CASM class is checked against 8 invariants with an independent VM-decoder walk of the bytecode, and every entry "
+            "point is executed in cairo-vm from the class's own bytecode with builtins in the declared order; wrong offsets, "
+            "builtin-order slips or shifted code would surface as VM errors or pointers in foreign segments.",
+            "Trusted: the OS calling convention as documented in casm_contract_class.rs, emulated by the harness.",
+            "DESIGN.md 3/C19"),
+    "C20": ("dbscen", "exploration",
+            "runtime monitoring: cached-vs-source equality oracle with a cache-hit counter hook",
+            "Pairs of databases that differ only in the corelib's cache_file compile the examples project, single example / "
+            "bug-sample files and e2e snippets; diagnostics, Sierra and CASM must be equal. Hook H3 proves that lowerings were "
+            "really served from the cache blob on one side and never on the other.",
+            "Trusted: the cache blob is produced by the same build with the same settings.",
+            "DESIGN.md 3/C20"),
+})
+
 PENDING = {
 }
 
 ENGINES = [
+    {"name": "formatter", "path": "harness/src/fmtchecks.rs", "serves_properties": ["C11"],
+     "kind_free_text": "layout mutators + idempotence / conservation oracle"},
+    {"name": "dbscen", "path": "harness/src/dbscen.rs", "serves_properties": ["C12", "C13", "C20"],
+     "kind_free_text": "database scenarios: schedules, edit histories, crate caches; salsa query-execution counter"},
+    {"name": "casm", "path": "harness/src/casm_ref.rs", "serves_properties": ["C16"],
+     "kind_free_text": "reference one-step CASM semantics vs cairo-vm"},
+    {"name": "serde", "path": "harness/src/serde_checks.rs", "serves_properties": ["C18"],
+     "kind_free_text": "Sierra round-trip oracles"},
+    {"name": "classes", "path": "harness/src/classes.rs", "serves_properties": ["C19"],
+     "kind_free_text": "class invariants + entry-point execution from class bytecode + contract generator"},
     {"name": "exec", "path": "harness/src/exec.rs, harness/src/execchecks.rs, harness/src/values.rs, harness/src/w2.rs",
      "serves_properties": ["C02", "C04", "C17"],
      "kind_free_text": "monitored VM runs (trace, resources, gas) of compiled snippets and corelib tests + trace monitors"},
